@@ -1,10 +1,140 @@
 /-
-  MdModel.Walk — placeholder (model not written yet).
+  MdModel.Walk — executable model of the stack walker (`minidump-unwind`), line-protocol entry.
+
+    Walk/Common.lean   architectures, contexts, stack memory, frames, environment
+    Walk/Unwind.lean   frame-pointer and scan unwinders, epilogue, `walk_stack`
+    Walk/Sym.lean      module lists, FUNC/PUBLIC lookup, by-symbols validation, ptr-auth mask
+    Walk/Cfi.lean      STACK CFI evaluation and `CfiStackWalker`
+    Walk/Layout.lean   C04: calling-convention layouts, expected chains, precondition `Pre`
+
+  request (engine `walk`):
+    walk <arch> <os> ctx:<r=v,..> valid:<all|-|r,..> stack:<none|base:hex> mods:<-|base:size:name,..> (sym:<module name>:<records>)*
+      records (`;`-separated, fields `|`-separated, `_` for a space inside rules):
+        F|addr|size|psize|name    P|addr|psize|name    C|addr|size|rules    A|addr|rules (belongs to the last C)
+  answer:
+    frames:<trust>|ip=..|in=..|sp=..|m=<idx|->|f=<name@base/psize|->|v=<all|r=v,..>;...
 -/
 import MdModel.Prelude
+import MdModel.Walk.Common
+import MdModel.Walk.Unwind
+import MdModel.Walk.Sym
+import MdModel.Walk.Cfi
+import MdModel.Walk.Layout
 namespace MdModel.Walk
+open MdModel MdModel.Proto
 
-/-- line-protocol entry point of this model (engine(s): walk, chain) -/
-def handle (_engine : String) (_args : List String) : String := "bad-op"
+def stripPrefix? (s pre : String) : Option String :=
+  if s.startsWith pre then some (s.drop pre.length).toString else none
+
+def parseOs (s : String) : Os :=
+  if s = "windows" then .windows else if s = "ios" then .ios else .other
+
+def parseAssign (s : String) : Option (String × Nat) :=
+  match s.splitOn "=" with
+  | [k, v] => (optNat v).map fun n => (k, n)
+  | _ => none
+
+def parseCtx (a : Arch) (regs valid : String) : Option Ctx := do
+  let assigns ← (pieces regs ",").mapM parseAssign
+  let v : Option (List String) ←
+    if valid = "all" then some none
+    else if valid = "-" then some (some [])
+    else some (some (pieces valid ","))
+  let base : Ctx := { ip := 0, sp := 0, rest := [], valid := v, m64 := a = .mips64 }
+  let lim := if a.isMips then U64MAX else a.regMax
+  assigns.foldlM (fun c (k, n) => if n ≤ lim then c.set a k n else none) base
+
+def parseMem (s : String) : Option (Option Mem) :=
+  if s = "none" then some none
+  else match s.splitOn ":" with
+    | [b, h] => do
+      let base ← optNat b
+      let bytes ← unhex h
+      if base ≤ U64MAX then some (some { base := base, bytes := bytes.toArray }) else none
+    | _ => none
+
+def parseMods (s : String) : Option (List Module) :=
+  if s = "-" then some []
+  else (pieces s ",").mapM fun m =>
+    match m.splitOn ":" with
+    | [b, sz, n] => do
+      let base ← optNat b
+      let size ← optNat sz
+      if base ≤ U64MAX ∧ size ≤ U32MAX then some { base := base, size := size, name := n } else none
+    | _ => none
+
+def unUnderscore (s : String) : String := s.map fun c => if c = '_' then ' ' else c
+
+def parseRecords (s : String) : Option SymFile :=
+  (pieces s ";").foldlM (fun (sf : SymFile) r =>
+    match r.splitOn "|" with
+    | ["F", a, sz, ps, n] => do
+      let a ← optNat a; let sz ← optNat sz; let ps ← optNat ps
+      some { sf with funcs := sf.funcs ++ [{ addr := a, size := sz, psize := ps, name := n }] }
+    | ["P", a, ps, n] => do
+      let a ← optNat a; let ps ← optNat ps
+      some { sf with pubs := sf.pubs ++ [{ addr := a, psize := ps, name := n }] }
+    | ["C", a, sz, rules] => do
+      let a ← optNat a; let sz ← optNat sz
+      some { sf with cfis := sf.cfis ++ [{ addr := a, size := sz, init := unUnderscore rules, adds := [] }] }
+    | ["A", a, rules] => do
+      let a ← optNat a
+      match sf.cfis.reverse with
+      | last :: before =>
+        some { sf with cfis := (({ last with adds := last.adds ++ [(a, unUnderscore rules)] }) :: before).reverse }
+      | [] => none
+    | _ => none) {}
+
+def parseSyms (mods : List Module) (fields : List String) : Option (List (Option SymFile)) := do
+  let named ← fields.mapM fun f => do
+    let body ← stripPrefix? f "sym:"
+    -- module name up to the first `:`; the records (CFI rules contain `:`) follow
+    let n := String.ofList (body.toList.takeWhile (· ≠ ':'))
+    let recs := String.ofList ((body.toList.dropWhile (· ≠ ':')).drop 1)
+    (parseRecords recs).map fun sf => (n, sf)
+  some (mods.map fun m => named.lookup m.name)
+
+def showValid (a : Arch) (c : Ctx) : String :=
+  match c.valid with
+  | none => "all"
+  | some names =>
+    let sorted := names.mergeSort fun p q => strLe p q
+    joinWith "," (sorted.map fun n => s!"{n}={c.raw a n}")
+
+def showFrame (a : Arch) (f : Frame) : String :=
+  let m := match f.module with
+    | some i => toString i
+    | none => "-"
+  let fn := match f.func with
+    | some g => s!"{g.name}@{g.base}/{g.psize}"
+    | none => "-"
+  s!"{f.trust.str}|ip={f.ctx.ip}|in={f.instruction}|sp={f.ctx.sp}|m={m}|f={fn}|v={showValid (effArch a f.ctx) f.ctx}"
+
+def showWalk (a : Arch) (fs : List Frame) : String :=
+  "frames:" ++ joinWith ";" (fs.map (showFrame a))
+
+def handleWalk (args : List String) : String :=
+  match args with
+  | arch :: os :: ctx :: valid :: stack :: mods :: syms =>
+    let r : Option String := do
+      let a ← Arch.ofStr arch
+      let regs ← stripPrefix? ctx "ctx:"
+      let v ← stripPrefix? valid "valid:"
+      let c ← parseCtx a regs v
+      let mem ← (stripPrefix? stack "stack:").bind parseMem
+      let ms ← (stripPrefix? mods "mods:").bind parseMods
+      let sy ← parseSyms ms syms
+      let w : World := { mods := ms, syms := sy }
+      let env := mkEnv a (parseOs os) w (mem.getD { base := 0, bytes := #[] })
+      some (showWalk a (walk env mem c))
+    r.getD "bad-op"
+  | _ => "bad-op"
+
+/-- line-protocol entry point of this model (engines: walk, chain) -/
+def handle (engine : String) (args : List String) : String :=
+  match engine with
+  | "walk" => handleWalk args
+  | "chain" => handleChain args
+  | _ => "bad-op"
 
 end MdModel.Walk
